@@ -30,6 +30,21 @@ func (vc *VC) call(c *ssa.CallCommon, res *ssa.Call, pos token.Pos) SVal {
 			}
 		}
 		con := vc.eng.contracts.M[key]
+		if con == nil {
+			// a method inherited from an embedded interface: its contract is keyed by the
+			// interface that declares it
+			if rv := c.Method.Type().(*types.Signature).Recv(); rv != nil {
+				k2 := "(" + typeString(types.Unalias(rv.Type())) + ")." + c.Method.Name()
+				if i := strings.Index(k2, "["); i >= 0 {
+					if j := strings.LastIndex(k2, "]"); j > i {
+						k2 = k2[:i] + k2[j+1:]
+					}
+				}
+				if c2 := vc.eng.contracts.M[k2]; c2 != nil {
+					con, key = c2, k2
+				}
+			}
+		}
 		args := []SVal{recv}
 		names := []string{"recv"}
 		sig := c.Method.Type().(*types.Signature)
